@@ -26,11 +26,14 @@ THEOREMS = [
     "IrVerif.Sort.C12_kahn_cycle_iff",
     "IrVerif.Sort.C12_kahn_stable",
     "IrVerif.Sort.C12_relink",
+    "IrVerif.Sort.C12_relink_refines",
     "IrVerif.Sort.C12_perm",
     "IrVerif.Sort.C12_respects",
     "IrVerif.Sort.C12_cycle_iff",
     "IrVerif.Sort.C12_cycle_lifted",
+    "IrVerif.Sort.C12_cycle_iff_lifted",
     "IrVerif.Sort.C12_cycle_no_change",
+    "IrVerif.Sort.C12_shared_raises",
     "IrVerif.Sort.C12_fixpoint_graph",
     "IrVerif.Sort.C12_fixpoint",
     "IrVerif.Sort.C12_deterministic",
@@ -40,7 +43,9 @@ ASSUMPTIONS = [
     "dict insertion order and dict/set lookups by object identity are modelled by creation indices",
     "the object graph is a tree: every Graph object is the value of at most one attribute and node.graph is the "
     "graph whose node list contains the node (ownership consistency is property C01's subject); a Graph object "
-    "shared by two attributes is outside the model (hypothesis WF: distinct node ids / graph ids, asserted on every case)",
+    "shared by two attributes is modelled by a derived branch (the sort raises, C12_shared_raises; differential only) "
+    "and excluded from all other theorems by hypothesis WF (distinct node ids / graph ids, asserted on every unshared "
+    "case); a graph nested in itself makes RecursiveGraphIterator recurse forever and cannot be encoded",
     "a value is represented by what Graph.sort reads from it: input_value.producer()",
     "C12_fixpoint* assume well-scoped graphs (a value is used only inside the graph of its producer or graphs "
     "nested in it), as in the property's quantifier; ill-scoped graphs are covered by perm/respects/cycle only",
@@ -212,9 +217,24 @@ def gen_case(rng, quick=True):
             rng.choice(ns)["attrs"].append(["refg"])
     how = rng.choice(["id", "rev", "shuffle", "shuffle", "swap", "mixed", "mixed"])
     permute(rng, root, how)
+    shared = False
+    if rng.random() < 0.05:
+        # one Graph object as the value of two attributes (of the same node or of two nodes)
+        owners = [(n, a) for n in walk_nodes(root) for a in n["attrs"] if a[0] in ("g", "gs") and (a[0] == "g" or a[1])]
+        if owners:
+            n0, a0 = rng.choice(owners)
+            gshare = a0[1] if a0[0] == "g" else rng.choice(a0[1])
+            inside = {id(x) for x in walk_nodes(gshare)}
+            targets = [n for n in walk_nodes(root) if id(n) not in inside]
+            t = rng.choice(targets)
+            if rng.random() < 0.5:
+                t["attrs"].append(["g", gshare])
+            else:
+                t["attrs"].append(["gs", [gshare] if rng.random() < 0.5 else [gshare, gshare]])
+            shared = True
     entry = rng.choice(["graph", "graph", "graph", "function", "pass", "subgraph"])
     variant = rng.randrange(4)
-    return {"spec": root, "mode": mode, "perm": how, "entry": entry, "variant": variant, "sub": rng.randrange(1 << 30)}
+    return {"spec": root, "mode": mode, "perm": how, "entry": entry, "variant": variant, "sub": rng.randrange(1 << 30), "shared": shared}
 
 
 # --------------------------------------------------------------------------- real objects
@@ -312,6 +332,8 @@ class Built:
 
     def _mk_graph(self, g):
         ir = self.ir
+        if g["g"] in self.graph:  # the same Graph object as the value of several attributes
+            return self.graph[g["g"]]
         nodes = [self._mk_node(n, with_attrs=True) for n in g["nodes"]]
         outs = []
         for n in g["nodes"][-2:]:
@@ -326,6 +348,8 @@ class Built:
 
     def _mk_graph_late(self, g):
         ir = self.ir
+        if g["g"] in self.graph:
+            return self.graph[g["g"]]
         for n in g["nodes"]:
             node = self.node[n["i"]]
             for j, a in enumerate(n["attrs"]):
@@ -558,7 +582,8 @@ def do_case(case, part):
         impl_universe = [[b.nid[id(n)], b.gidmap[id(n.graph)]] for n in b.ir.traversal.RecursiveGraphIterator(root)]
     except Exception as e:  # noqa: BLE001
         impl_universe = "raised:" + type(e).__name__
-    if len({x[0] for x in pre_universe}) != len(pre_universe) or len(set(tree)) != len(tree):
+    dupnodes = len({x[0] for x in pre_universe}) != len(pre_universe)  # a shared Graph object with nodes
+    if (dupnodes or len(set(tree)) != len(tree)) and not case.get("shared"):
         part.disagree("encoding not well formed (duplicate node or graph id): hypothesis WF of the theorems", {"case": case})
     _roots, outcome = run_real(b, case)
     after = b.orders()
@@ -575,6 +600,7 @@ def do_case(case, part):
         outcome=outcome.split(":")[0],
         wellscoped=ws,
         preordered=all(pre_ordered.values()),
+        shared_graph=("nodes-twice" if dupnodes else ("empty" if len(set(tree)) != len(tree) else "no")),
         fixpoint_clause=("checked" if ws and outcome == "ok" and any(pre_ordered.values()) else "n/a"),
     )
     rec = {"case": case}
@@ -606,9 +632,11 @@ def do_case(case, part):
     if outcome == "raised":
         if after != before:
             part.fail(f"{sig_entry}:cycle-changed", "ValueError raised but some graph's order changed", rec)
-        if not flat_cyc:
+        if dupnodes:
+            pass  # a shared Graph object: outside the property's quantifier; model (C12_shared_raises) says raise
+        elif not flat_cyc:
             part.fail(f"{sig_entry}:raise-without-cycle", "ValueError although the dependencies have no cycle", rec)
-        if ws and not lifted_cyc:
+        elif ws and not lifted_cyc:
             part.fail(f"{sig_entry}:raise-without-cycle-ws", "ValueError on a well-scoped graph whose per-graph dependencies are acyclic", rec)
     else:
         if lifted_cyc or flat_cyc:
@@ -632,7 +660,8 @@ def do_case(case, part):
         "req": {"m": "sort.sort", "graph": req_graph},
         "ureq": {"m": "sort.universe", "graph": req_graph},
         "hreq": {"m": "sort.hyp", "graph": req_graph},
-        "impl_hyp": {"ws": ws, "ordered": [[gid, pre_ordered[gid]] for gid in tree]},
+        # (for a shared Graph object "enclosing graph" is ambiguous: the hypotheses are not compared there)
+        "impl_hyp": None if case.get("shared") else {"ws": ws, "ordered": [[gid, pre_ordered[gid]] for gid in tree]},
         "impl": "raised" if outcome == "raised" else [[g, after[g]] for g in tree],
         "impl_after": [[g, after[g]] for g in tree],
         "impl_universe": impl_universe,
@@ -756,7 +785,7 @@ def check_cases(ctx: Ctx, cases: list) -> None:
     n = len(recs)
     for r, ho in zip(recs, outs[2 * n :]):
         # the hypotheses of C12_fixpoint* as defined in Lean vs the oracle's own reading on the real objects
-        if {"ws": ho.get("ws"), "ordered": ho.get("ordered")} != r["impl_hyp"]:
+        if r["impl_hyp"] is not None and {"ws": ho.get("ws"), "ordered": ho.get("ordered")} != r["impl_hyp"]:
             ctx.disagree("sort.hyp: WellScoped/OrderedG (Lean) != oracle's reading", r["case"], ho, r["impl_hyp"])
     for r, o, uo in zip(recs, outs[:n], outs[n : 2 * n]):
         model = o.get("r", o)
